@@ -6,7 +6,7 @@ CONSTANTS
  Vars = {"n"}
  Ns = {2, 3}
  MsgVecs <- MV11
- CCoins <- C3b
+ CCoins <- C2c
  SCoins <- C2a
  Tamper = FALSE
  PowM <- TabPowM
